@@ -1265,6 +1265,15 @@ func c20RunDisp(p *c20DispProg) *c20DispOut {
 				if !same(obs, exp) && !none(obs) {
 					return fail("possible repeat: delivered to %v, want exactly %v or nobody", obs, exp)
 				}
+				// a subscriber that filters on THIS sender cannot have been handed the same-content message of another
+				// sender: for it the message is no repeat, it must get it ("every subscriber whose sender filter matches")
+				if st == nil || st.state == c20Fresh {
+					for i, sb := range subs {
+						if exp[i] && sb.spec.From != "" && !obs[i] {
+							return fail("a message that differs from a handled one only in its sender was dropped although subscriber %d filters on this sender and never got the content (delivered to %v, want %v)", i, obs, exp)
+						}
+					}
+				}
 				o.label("tolerated-either")
 			}
 			accepted := anyExp && same(obs, exp)
@@ -1538,7 +1547,7 @@ func TestC20(t *testing.T) {
 		"messages: NewMessage -> protobuf wire hop -> Unmarshal for every message type x option subset (exhaustive box), a deterministic grid of payload sizes 0..2 KiB (quick: large up to 256 KiB, thorough: 1 MiB) x {zero, repeating, incompressible} bodies x real payload message kinds with EVERY single-bit flip of small encodings, strided flips of large ones and bursts of every span 2..32 (first and last bit set, three interior patterns) at every / sampled bit positions in CRC bit order, plus rapid-drawn cases (type, options in any order, size class, body, flips, bursts); non-trivial = raw payload > 64 KiB or snappy does not shrink it, distinct = hash of (type, shape, body, size, seed, options). "+
 			"dispatcher: rapid-generated sequential programs of Register / UnRegister / Dispatch / repeat / drain / error-class operations over 1-6 recording subscribers (handler and buffered-channel form, from / bcName filters) compared after every step with a multiset model; non-trivial = a subscriber that received a message is unregistered and a later accepted message matching it is dispatched, distinct = hash of the program",
 		"a burst is measured in the order CRC-32/IEEE consumes bits (byte by byte, least significant bit first)",
-		"a message differing from a handled one only in its sender may or may not be treated as a repeat; a message accepted while nobody matched may or may not count as handled",
+		"a message differing from a handled one only in its sender may or may not be treated as a repeat for subscribers without a sender filter (a subscriber filtering on that sender must get it); a message accepted while nobody matched may or may not count as handled",
 		"the de-duplication window is only asserted while less than 1 s of wall time has passed since the first dispatch started (window 3 s); its expiry is not asserted",
 		"a full channel subscriber drops the message (documented); channel deliveries of a step that took >= 2 s of wall time are not judged")
 	defer c.Flush(t)
